@@ -68,6 +68,15 @@ fn check_build(input: &BuildIn, case: &mut Case) -> Result<(), Fail> {
         }
         ensure!(out[o.rdata_off..o.end] == rd[..], "c09:opt-rdata", "{}: RDATA {} expected {}", what, hex(&out[o.rdata_off..o.end]), hex(&rd));
         ensure!(w.flags_word & 15 == rcode & 15, "c09:header-nibble", "{}: header RCODE nibble {} for response code {}", what, w.flags_word & 15, rcode);
+        // the same bytes reach a writer that only takes a few bytes per write call
+        {
+            let chunk = 1 + (edns.udp as usize % 7);
+            let mut w = super::c04::ChunkedWriter { inner: std::io::Cursor::new(Vec::new()), chunk };
+            let r = if compressed { lib("write_compressed_to", || pk.write_compressed_to(&mut w))? } else { lib("write_to", || pk.write_to(&mut w))? };
+            r.map_err(|e| Fail::new("c09:build-failed", format!("{} writer accepting {} bytes per call: {:?}", what, chunk, e)))?;
+            let v = w.inner.into_inner();
+            ensure!(v == out, "c09:short-writes", "{}: a writer accepting {} bytes per call receives {} bytes, the vector-returning entry point produced {}", what, chunk, v.len(), out.len());
+        }
         // and the reference decoder reads back the model
         let (back, _) = decode_message(&out).map_err(|e| Fail::new("c09:undecodable", format!("{}: {:?}", what, e)))?;
         ensure!(back == p, "c09:build-decodes-differently", "{}: {}", what, diff(&p, &back));
